@@ -56,6 +56,9 @@ pub enum Ty {
     Named(&'static str),
     /// `minicbor::data::Tagged<N, T>`: tag N, then the value; never nil itself
     Tagged(u64, Box<Ty>),
+    /// `Box<T>` / `Cow<'_, T>` around a sized `T`: encodes as its content, but is never nil itself
+    /// (neither impl forwards `is_nil` / `nil`), so such a field is always written and mandatory
+    Opaque(Box<Ty>),
     /// `dsupport::codecs::tri::Tri` (view U(0) = Keep = nil, U(1) = Clear = null, U(n+2) = Set(n))
     Tri,
     /// `core::marker::PhantomData<_>`: the empty definite array, never nil (view `Seq([])`)
